@@ -1028,7 +1028,7 @@ theorem getKeyD_present (d : D Val) (k : String) (v : Val) (h : lookup k d.items
   simp [getKeyD, h, pure, Except.pure]
 
 /-- on a key that `split('.')` leaves whole (no dot) the class-aware read is the plain `d[k]` of `getKey`: `KeyError` when absent -/
-theorem getKeyD_single (d : D Val) (k : String) (hs : k.splitOn "." = [k]) : getKeyD d k = getKey d k := by
+theorem getKeyD_single (d : D Val) (k : String) (hs : Tree.splitDots k = [k]) : getKeyD d k = getKey d k := by
   unfold getKeyD getKey
   cases h : lookup k d.items with
   | some v => rfl
@@ -1061,7 +1061,7 @@ theorem getDotted_ok_iff : ∀ (p : List String) (t v : Val), getDotted t p = .o
 mappings leading to `v` -/
 theorem getKeyD_ok_iff (d : D Val) (k : String) (v : Val) :
     getKeyD d k = .ok v ↔ lookup k d.items = some v ∨
-      (lookup k d.items = none ∧ getItem (.dict d.items) (k.splitOn ".") = .ok v) := by
+      (lookup k d.items = none ∧ getItem (.dict d.items) (Tree.splitDots k) = .ok v) := by
   unfold getKeyD
   cases h : lookup k d.items with
   | some w => simp [pure, Except.pure]
